@@ -47,6 +47,17 @@ PROPS = {
         "trusted_base": TB_ALGEBRA,
         "hypotheses": [X_NONID, "X-LIN (explicit hypothesis of c09_rejected_for_other_key): x*H(enc pk) != x'*H(enc pk') for the two keys at hand"],
     },
+    "C06": {
+        "units": [gen("C06", props=["lib_sums.rs", "C06.rs"])],
+        "trusted_base": TB_ALGEBRA + ["L-STD-VECKEY: Vec<u8> hashes/compares by content (HashMap key model) and is determined by its content"],
+        "hypotheses": ["X-LIN (explicit): the honest aggregate is not the identity; a perturbed list has a different reference sum"],
+        "not_decided": ["general permutations are covered through adjacent swaps (proved) composed outside the verifier"],
+    },
+    "C07": {
+        "units": [gen("C07", props=["lib_sums.rs", "C07.rs"])],
+        "trusted_base": TB_ALGEBRA,
+        "hypotheses": [X_NONID, "X-INJ (explicit): another message hashes to another point", "the accumulated key is not the identity (explicit requires; otherwise C04 applies)"],
+    },
 }
 
 NOT_APPLICABLE = {
